@@ -36,6 +36,8 @@ def run(prog, chk):
     passthrough_str_ops(prog, chk)
     top_level_predicate(prog, chk)
     qualified_names(prog, chk)
+    attrmap_keys_verbatim(prog, chk)
+    writer_is_read_only(prog, chk)
     inner_events_guard(prog, chk)
     no_precheck(prog, chk)
     from props import strops
@@ -277,6 +279,84 @@ def top_level_predicate(prog, chk):
             ok = ok or (reads_depth and zero)
     others = [c.path for (bb, t, c) in b.call_sites(lambda c: True)]
     chk.ob(ok and not others, "A7.top-level", "at_top_level", b.where(), "at_top_level() is `current_depth == 0`", f"at_top_level() is not the test `current_depth == 0` (calls: {others}): content nested in plain containers can be taken for the document root, so a nested namespaced <svg> turns the whole document into pass-through (root without xmlns/version)")
+
+
+def _only_from_param(b, local, param, depth=8):
+    """every definition of `local` is a move / Into::into / From::from conversion of the parameter `param`"""
+    if local == param:
+        return True
+    if depth <= 0:
+        return False
+    defs = b.defs_of(local)
+    if not defs:
+        return False
+    for d in defs:
+        node = d[2]
+        if d[1] == R.TERM:
+            if "fn" not in node or Callee(node["fn"]).decl_path not in ("std::convert::Into::into", "std::convert::From::from", "std::string::ToString::to_string", "std::borrow::ToOwned::to_owned"):
+                return False
+            a = op_place(node["args"][0]) if node["args"] else None
+            if a is None or [z for z in a[1] if z != "*"] or not _only_from_param(b, a[0], param, depth - 1):
+                return False
+        else:
+            if node.get("k") not in ("use", "ref"):
+                return False
+            a = op_place(node.get("op")) if node.get("k") == "use" else P(node["place"])
+            if a is None or [z for z in a[1] if z != "*"] or not _only_from_param(b, a[0], param, depth - 1):
+                return False
+    return True
+
+
+def attrmap_keys_verbatim(prog, chk):
+    """AttrMap stores an attribute under the name it is given: the key of the (key, value) pair that insert() stores -
+    and the key insert_first() hands to insert() - is the converted parameter, never a rewritten or substituted name"""
+    n = 0
+    for name in ("insert", "insert_first"):
+        b = prog.maybe_body(f"svgdx::types::AttrMap::{name}")
+        if b is None:
+            chk.anchor_missing("A16.attr-key-verbatim", f"AttrMap::{name} not found")
+            continue
+        chk.touch(b)
+        sites = []
+        for x, i, st in b.all_stmts():
+            rv = st.get("rv") or {}
+            if rv.get("k") == "aggr" and rv.get("ak") == "tuple" and len(rv.get("ops", [])) == 2:
+                sites.append((x, st.get("line"), op_place(rv["ops"][0])))
+        for (x, t, c) in b.call_sites(lambda c: c.path in ("svgdx::types::AttrMap::insert", "svgdx::types::AttrMap::insert_first")):
+            if len(t["args"]) >= 2:
+                sites.append((x, t.get("line"), op_place(t["args"][1])))
+        for (x, line, kp) in sites:
+            n += 1
+            ok = kp is not None and not kp[1] and _only_from_param(b, kp[0], 2)
+            chk.ob(ok, "A16.attr-key-verbatim", f"AttrMap::{name}", b.where(x, line), f"AttrMap::{name} stores the pair under the name it was given", f"AttrMap::{name} stores the pair under a name that is not (only) the one it was given: an attribute comes out renamed (e.g. xlink:href as href) or merged with another one")
+    chk.floor("A16.attr-key-verbatim", n, 2, "(key, value) stored / handed on by AttrMap::insert / insert_first")
+
+
+def writer_is_read_only(prog, chk):
+    """writing the output does not edit it: nothing reachable from OutputList::write_to calls a mutator of an element's
+    attribute map or class list (what is written is what the transform produced - for a real SVG, what was read)"""
+    wt = prog.maybe_body("svgdx::events::OutputList::write_to")
+    if wt is None:
+        chk.anchor_missing("A16.writer-read-only", "OutputList::write_to not found")
+        return
+    chk.touch(wt)
+    reach, work = {wt.id}, [wt.id]
+    while work:
+        a = work.pop()
+        for t in prog.edges.get(a, ()):
+            if t not in reach and prog.bodies[t].unit == "svgdx-lib":
+                reach.add(t)
+                work.append(t)
+    MUT = ("svgdx::types::AttrMap::", "svgdx::types::ClassList::", "svgdx::element::SvgElement::")
+    bad = []
+    for bid in sorted(reach):
+        b = prog.bodies[bid]
+        if not b.path.startswith(MUT) or "{closure" in b.path:
+            continue
+        ty1 = b.local_ty(1) or ""
+        if ty1.startswith("&mut ") and any(k in ty1 for k in ("AttrMap", "ClassList", "SvgElement")):
+            bad.append(b.short)
+    chk.ob(not bad, "A16.writer-read-only", "write_to", wt.where(), f"nothing reachable from write_to ({len(reach)} functions) takes an element, attribute map or class list by &mut", f"the writer edits what it writes: {', '.join(sorted(bad)[:6])} reachable from OutputList::write_to - attributes can be dropped or rewritten for *every* element written, including a real SVG document that must pass through verbatim")
 
 
 def qualified_names(prog, chk):
